@@ -22,7 +22,7 @@ Classified(d, r, router, o) == LET f == FailedFor(router, d, r, o) IN f = {} \/ 
 DFailed(d, r) ==
    (IF Satisfiable(d, r) THEN {} ELSE {"ContractSatisfiable"})
    \cup (IF /\ Failed(d, r, MuxObs(d, r, TRUE, TRUE)) = {}
-            /\ HasOverride(d) \/ FailedFor("l", d, r, LegacyObs(d, r, TRUE, TRUE, TRUE)) = {}
+            /\ HasOverride(d) \/ FailedFor("l", d, r, LegacyObs(d, r, TRUE, TRUE, TRUE, TRUE)) = {}
          THEN {} ELSE {"RepairedRefines"})
    \cup (IF /\ Classified(d, r, "g", CurMuxObs(d, r))
             /\ Classified(d, r, "l", CurLegacyObs(d, r))
